@@ -221,9 +221,9 @@ impl Waits<'_> {
                     Chip::C126(c) => c.in_standby(),
                     Chip::C127(c) => c.in_standby(),
                 };
-                // only the timeout interrupt is judged: the data sheets leave no doubt that it ends a single-shot
-                // operation with the chip in standby, and the statement names timed-out operations explicitly
-                if standby && matches!(irq, Irq::Timeout | Irq::PreambleTimeout) {
+                // only the timeout and the done interrupts (TxDone, RxDone of a single-shot reception, CadDone) are
+                // judged: the data sheets leave no doubt that they end the operation with the chip in standby
+                if standby && matches!(irq, Irq::Timeout | Irq::PreambleTimeout | Irq::Done { .. }) {
                     self.terminal_seen = true;
                 }
                 return true;
